@@ -349,6 +349,12 @@ fn run_property(
             ts.elapsed().as_secs_f64(),
             if viol.is_some() { "  ** VIOLATION **" } else { "" }
         );
+        // generator health: a sub-check whose decoder regularly runs past the end of its tape explores less
+        // than its generator describes (the missing choices are all zero)
+        let exhausted = stats.counters.get(&format!("tape_exhausted_cases/{}", sub.name)).copied().unwrap_or(0);
+        if stats.evaluations > 0 && exhausted * 10 > stats.evaluations {
+            eprintln!("note: {} of {} cases of {}/{} ran past the end of their tape: raise the tape length of this sub-check", exhausted, stats.evaluations, prop.id, sub.name);
+        }
         total.merge(stats);
         if let Some(v) = viol {
             if v.fail.sig.starts_with("harness_panic:") {
